@@ -26,14 +26,25 @@ def spec_law(cfg):
     return law, r
 
 
-def sample_counts(k, n, M, seed):
+def sample_counts(k, n, M, seed, companions=0):
+    """M independent seeded runs; with companions > 0 that many further reservoirs (other sizes) are alive and
+    fed in lockstep, and a decoy reservoir is created mid-stream: every reservoir has to follow the law on its
+    own (no state shared between objects)"""
     random.seed(seed)
     np.random.seed(seed % 2 ** 32)
     cnt = {}
     for _ in range(M):
+        comp = [GS.make("uniform", 1 + (k + j) % 3, False) for j in range(companions)]
         st = GS.make("uniform", k, False)
+        comp += [GS.make("uniform", k, False) for j in range(1 if companions else 0)]
         for t in range(1, n + 1):
+            for c in comp[: companions // 2 + 1] if companions else []:
+                c.update({"id": t})
             st.update({"id": t})
+            for c in comp[companions // 2 + 1:] if companions else []:
+                c.update({"id": t})
+            if companions and t == k + 1:
+                GS.make("uniform", k, False)       # a decoy created while the others are mid-stream
         key = frozenset(x["id"] for x in st.get_data()[0])
         cnt[key] = cnt.get(key, 0) + 1
     return cnt
@@ -100,29 +111,34 @@ def run(tier, seed):
     for cfg, k, n in (("uni_emit1", 1, 3), ("uni_emit2", 2, 5), ("uni_emit3", 3, 7)):
         law, r = spec_law(cfg)
         ctx.add_tlc("law export ReservoirLaw_%s" % cfg, r, kind="behaviour_export")
-        cnt = sample_counts(k, n, M, seed + 17 * k)
         want = law[n]
         ncell = len(want)
-        for s in set(cnt) - set(want):
-            ctx.violation("stat.uniform_subsets", "k=%d n=%d" % (k, n), "reservoir content %s has probability 0 in the law"
-                          % sorted(s), {"k": k, "n": n, "M": M})
-        worst = (1.0, None)
-        for s, pr in want.items():
-            obs = cnt.get(s, 0)
-            pv = dist.binom_two_sided_p(obs, M, float(pr))
-            cells += 1
-            if pv < worst[0]:
-                worst = (pv, (sorted(s), obs / M, float(pr)))
-            if pv < THRESH / 1:
-                ctx.violation("stat.uniform_subsets", "k=%d n=%d" % (k, n),
-                              "subset %s kept in %d of %d runs (%.4f), law %.4f, exact binomial p-value %.3g" % (
-                                  sorted(s), obs, M, obs / M, float(pr), pv), {"k": k, "n": n, "M": M, "seed": seed + 17 * k})
-        ctx.add_stage("seeded statistics k=%d n=%d: %d runs, %d subsets, smallest p-value %.3g at %s" % (k, n, M, ncell, worst[0], worst[1]),
-                      "statistics", runs=M, cells=ncell)
-        ctx.nontrivial(("D", k, n))
-        ctx.evaluations += M
-        ctx.traces += M
-        ctx.sample({"k": k, "n": n, "law_of_one_subset": str(list(want.values())[0]), "observed": {str(sorted(s)): c for s, c in list(cnt.items())[:4]}})
+        for companions in (0, 2):
+            runs = M if companions == 0 else M // 2
+            cnt = sample_counts(k, n, runs, seed + 17 * k + companions, companions)
+            where = "k=%d n=%d%s" % (k, n, " with live companion reservoirs" if companions else "")
+            for s_ in set(cnt) - set(want):
+                ctx.violation("stat.uniform_subsets", where, "reservoir content %s has probability 0 in the law" % sorted(s_),
+                              {"k": k, "n": n, "M": runs, "companions": companions})
+            worst = (1.0, None)
+            for s_, pr in want.items():
+                obs = cnt.get(s_, 0)
+                pv = dist.binom_two_sided_p(obs, runs, float(pr))
+                cells += 1
+                if pv < worst[0]:
+                    worst = (pv, (sorted(s_), obs / runs, float(pr)))
+                if pv < THRESH:
+                    ctx.violation("stat.uniform_subsets", where,
+                                  "subset %s kept in %d of %d runs (%.4f), law %.4f, exact binomial p-value %.3g" % (
+                                      sorted(s_), obs, runs, obs / runs, float(pr), pv),
+                                  {"k": k, "n": n, "M": runs, "seed": seed + 17 * k + companions, "companions": companions})
+            ctx.add_stage("seeded statistics %s: %d runs, %d subsets, smallest p-value %.3g at %s" % (where, runs, ncell, worst[0], worst[1]),
+                          "statistics", runs=runs, cells=ncell)
+            ctx.nontrivial(("D", k, n, companions))
+            ctx.evaluations += runs
+            ctx.traces += runs
+        ctx.sample({"k": k, "n": n, "law_of_one_subset": str(list(want.values())[0]),
+                    "observed": {str(sorted(s_)): c for s_, c in list(cnt.items())[:4]}})
     # larger instances: inclusion k/n by arrival decile
     for (k, n, MM) in ([(10, 200, 3000)] if quick else [(10, 200, 30000), (100, 1000, 2000)]):
         random.seed(seed + k)
